@@ -34,9 +34,19 @@ Readings fixed here (each is the reading under which the repaired code is right)
   `remove_drums`); the rows of that note array (another property's subject) are taken from the
   implementation, "input order" is their order; anything else (unstructured array, empty list, other objects)
   is rejected; a list of PerformedParts is documented as performance-like but rejected by ensure_notearray:
-  the oracle gives no verdict on its acceptance (if accepted, the roll must be that of the performance array).
+  the oracle gives no verdict on its acceptance (if accepted, the roll must be that of the performance array);
+* (round 3) "the given notes", "the chosen resolution and margins": the roll is a function of the VALUES of the
+  arguments of THIS call.  Whatever holds a value (Python number, numpy scalar, 0-d / one-element array of float64 /
+  float32 / int, list, tuple for `end_time`; number / numpy scalar / 0-d array for `time_div`, `time_margin`;
+  a note array that is read-only, strided, a multi-field view, a recarray, aligned, with i8/f8 columns; a dense roll in
+  C / Fortran order, strided, read-only, of a small int dtype, csc / csr for the decoder) stands for that value;
+  a call leaves every argument object as it found it, returns nothing that shares memory with an argument, and gives the
+  same result when it is repeated with the same objects, with fresh equal objects, or with plain Python numbers.
+  Not demanded: that two results are distinct objects (a cache may hand out one object twice).
 """
+import json
 import math
+import random
 import warnings
 from fractions import Fraction
 
@@ -48,7 +58,8 @@ from core import Eval
 
 PROPERTY = "C13"
 DRIVER = "drv_c13"
-PROPS = ["PartituraModel.Props.C13", "PartituraModel.Props.C13Args", "PartituraModel.Props.C13Float"]
+PROPS = ["PartituraModel.Props.C13", "PartituraModel.Props.C13Args", "PartituraModel.Props.C13Float",
+         "PartituraModel.Props.C13Session"]
 TRUSTED = [
     "scipy.sparse.csc_matrix((data,(row,col)),shape,dtype=int): places each triplet, rejects out-of-range indices; [21:109,:] slicing; toarray()",
     "np.round = round half to even on binary64; np.argsort = some permutation that sorts (ties in any order: order_indep shows no output depends on it)",
@@ -61,6 +72,9 @@ TRUSTED = [
     "which columns the array then has) is modelled from the generated layout table and stated in ensure_dispatch",
     "IEEE-754: Python float division = correctly rounded binary64, storage in an f4 column = round to nearest even binary32 "
     "(Model roundBin; compared exactly, value by value); int32 storage of pitch / velocity (|value| < 2^31)",
+    "sessions (Model/PianoRollSession.lean): that no call writes through the caller's time_div / time_margin / end_time objects or the "
+    "note array is the model's step function (store returned unchanged); it is tied to the code by `sess` requests that compare every "
+    "result and the final value of every shared object, and by the oracle's frame / alias / history clauses on the real objects",
     "harness/translate_c13.py reads the constants from the live source (signatures, ast literals, two finite function tables by calling the "
     "functions on their whole domain); tables_spec / tables_extracted pin every generated value",
 ]
@@ -79,13 +93,21 @@ RULE = ("random structured note arrays (score units beat/quarter/div, performanc
         "note_separation, pitch_margin in {-1,0,2}, time_margin in {0,1,2, 1/2, 3/2, 1/4, negative}, piano_range, remove_drums, remove_silence, "
         "end_time as number / one-element array / list / longer or empty array, binary, return_idxs; pitch-class roll with its own keywords given or "
         "omitted); random integer rolls 128xn / 88xn / other heights (dense and sparse, negative values, empty, single column, noisy rows, "
-        "time_div omitted / fractional / zero / negative) and encode->decode round trips for the inverse. "
+        "time_div omitted / fractional / zero / negative; rolls in Fortran order / strided / read-only / int8..int32 / csr, time_div as "
+        "numpy scalar / 0-d array; every roll decoded twice) and encode->decode round trips for the inverse; SESSIONS: one note_info "
+        "object (note array as read-only / strided / multi-field view / recarray / aligned / i8-f8 columns, or Part / Score / "
+        "PerformedPart / Performance objects, parts built with interleaved read-only views) and ONE object each for time_div, "
+        "time_margin, end_time (Python number, numpy scalar, 0-d array, one-element array of f8 / f4 / i8, shape (1,1), read-only, "
+        "list, tuple) passed to 3-6 compute_pianoroll / compute_pitch_class_pianoroll calls with repeating option sets (first onset "
+        "> 0 or negative, silence removed or kept), then the same calls with fresh objects and with plain Python numbers. "
         "distinct = distinct request text; non-trivial = at least one request answered with a roll/note list (not err)")
 LEVEL_TEXT = ("Lean 4 theorems over an executable exact-rational model of ensure_notearray's dispatch, the keyword handling (defaults, int(), "
               ".item()), _make_pianoroll / compute_pianoroll / compute_pitch_class_pianoroll / pianoroll_to_notearray incl. its float32 "
               "columns (all note lists, all option values, by induction and permutation invariance), stated over constant tables regenerated "
               "from the source, and tied to the code by a differential run that compares shape, every non-zero cell, every index row and "
-              "every decoded value exactly, plus an independent Fraction rasteriser as oracle on the implementation's outputs.")
+              "every decoded value exactly, plus an independent Fraction rasteriser as oracle on the implementation's outputs. "
+              "Sessions of calls on shared argument objects are modelled with a store (frame, history independence, container "
+              "independence proved for all call sequences) and compared call by call and store value by store value.")
 
 SCORE_UNITS = ["beat", "quarter", "div"]
 PERF_UNITS = ["sec", "tick"]
@@ -228,6 +250,17 @@ TM_POOL = [0, 0, 1, 2]
 TM_ODD = [0.5, 1.5, 0.25, 0.75, 2.5, -0.5, -1, 1.0, 0.125]
 
 
+def ends_of(rng, src, units):
+    """candidate end times (in some unit of the input)"""
+    if src["src"] == "array" and src["rows"] and units:
+        return [r["t"][k][0] + max(r["t"][k][1], 0) for r in src["rows"] for k in range(len(units))]
+    if src.get("pnotes"):
+        return [n["off"] for n in src["pnotes"]]
+    if src.get("parts"):
+        return [max([n["t"] + n["dur"] for n in p["notes"]] + [0]) / p["divs"] * rng.choice([1, 1, 2, p["divs"]]) for p in src["parts"]]
+    return None
+
+
 def gen_opts(rng, src):
     units = src.get("units") or (SCORE_UNITS if src["src"] in SCORE_KINDS else PERF_UNITS if src["src"] in PERF_KINDS else [])
     m = rng.random()
@@ -248,13 +281,7 @@ def gen_opts(rng, src):
         "pr": rng.random() < 0.3, "rd": rng.random() < 0.85, "rs": rng.random() < 0.5,
         "et": None, "bi": rng.random() < 0.3, "ri": rng.random() < 0.6,
     }
-    ends = None
-    if src["src"] == "array" and src["rows"] and units:
-        ends = [r["t"][k][0] + max(r["t"][k][1], 0) for r in src["rows"] for k in range(len(units))]
-    elif src.get("pnotes"):
-        ends = [n["off"] for n in src["pnotes"]]
-    elif src.get("parts"):
-        ends = [max([n["t"] + n["dur"] for n in p["notes"]] + [0]) / p["divs"] * rng.choice([1, 1, 2, p["divs"]]) for p in src["parts"]]
+    ends = ends_of(rng, src, units)
     if rng.random() < 0.3 and ends:
         base = max(ends)
         d = rng.choice([0, 0.5, 1, 2, 3, 5, -0.25, -2])
@@ -326,8 +353,18 @@ def gen_roll(rng, tier):
                     cells[(rng.randrange(rows), rng.randrange(n))] = val()
     td = rng.choice([1, 2, 8, 12, 16, 3]) if rng.random() < 0.8 else rng.choice([None, None, 0, 0.5, 2.5, -2, 0.1, 7, 1000, 0.0])
     unit = rng.choice(["sec", "beat", "quarter"]) if td is not None or rng.random() < 0.5 else None
-    return {"k": "dec", "rows": rows, "n": n, "cells": sorted([p, j, v] for (p, j), v in cells.items()),
-            "td": td, "unit": unit, "sparse": rng.random() < 0.3}
+    d = {"k": "dec", "rows": rows, "n": n, "cells": sorted([p, j, v] for (p, j), v in cells.items()),
+         "td": td, "unit": unit, "sparse": rng.random() < 0.3}
+    # the container of the roll / of time_div (round 3): the decoder reads values, whatever holds them
+    if rng.random() < 0.4:
+        vals = [v for v in cells.values()]
+        fits = [t for t, lo, hi in (("i1", -128, 127), ("u1", 0, 255), ("i2", -2 ** 15, 2 ** 15 - 1), ("i4", -2 ** 31, 2 ** 31 - 1))
+                if all(lo <= v <= hi for v in vals)]
+        d["form"] = rng.choice(["F", "ro", "strided", "csr", "csr"] + fits[:2])
+        d["sparse"] = False
+    if td and rng.random() < 0.3:
+        d["td"] = {"a0": td} if rng.random() < 0.5 else {"np": td, "dt": "i8" if isinstance(td, int) else "f8"}
+    return d
 
 
 def gen_roundtrip(rng, tier):
@@ -347,9 +384,104 @@ def gen_roundtrip(rng, tier):
     return {"k": "rt", "td": td, "notes": notes, "piano": rng.random() < 0.4, "unit": rng.choice(["sec", "beat"])}
 
 
+ET_FORMS = ["arr", "arr", "arr", "arr_ro", "a0", "a0", "a0_ro", "np", "np_f4", "np_i8", "arr_f4", "arr_i8", "a0_i8", "a0_f4",
+            "list", "tuple", "arr2d", "py"]
+
+
+def et_in_form(value, form):
+    """the description of an `end_time` argument of container kind `form` holding (about) `value`"""
+    if form == "py":
+        return value
+    base, _, mod = form.partition("_")
+    dt = mod if mod in ("f4", "i8") else "f8"
+    value = f32(value) if dt == "f4" else int(math.ceil(value)) if dt == "i8" else float(value)
+    if base == "list":
+        return {"list": [value]}
+    if base == "tuple":
+        return {"tuple": [value]}
+    if base == "np":
+        return {"np": value, "dt": dt}
+    if base == "a0":
+        d = {"a0": value, "dt": dt}
+    elif base == "arr2d":
+        d = {"arr": [value], "dt": dt, "nd": 2}
+    else:
+        d = {"arr": [value], "dt": dt}
+    if mod == "ro":
+        d["ro"] = True
+    return d
+
+
+def gen_hist(rng, tier):
+    """a SESSION: one `note_info` object (note array in some container form, or a score / performance object) and one
+    object each for time_div / time_margin / end_time (numpy scalars, 0-d and one-element arrays of several dtypes,
+    lists, tuples, read-only arrays), passed to a sequence of compute_pianoroll / compute_pitch_class_pianoroll calls
+    in which option sets repeat"""
+    if rng.random() < 0.7:
+        while True:
+            src = gen_array(rng, "quick")
+            if src["units"] and 1 <= len(src["rows"]) <= 8:
+                break
+        src["form"] = rng.choice(ARRAY_FORMS)
+    else:
+        while True:
+            src = gen_object(rng, "quick")
+            if src["src"] in SCORE_KINDS + PERF_KINDS:
+                break
+        if src.get("parts") and rng.random() < 0.7:
+            for p in src["parts"]:
+                p["warm"] = rng.randrange(1, 128)
+    units = src.get("units") or (SCORE_UNITS if src["src"] in SCORE_KINDS else PERF_UNITS)
+    base = gen_opts(rng, src)
+    if base["tu"] not in units + ["auto"]:
+        base["tu"] = "auto"
+    if "omit" in base:
+        base["omit"] = [k for k in base["omit"] if k not in ("et", "td", "tm")][:3]
+    w = rng.random()
+    if w < 0.3:
+        base["td"] = {"a0": rng.choice([1, 2, 4, 8, 2.5, 8.0])}
+    elif w < 0.55:
+        base["td"] = {"np": rng.choice([1, 2, 4, 8, 16]), "dt": rng.choice(["i8", "i4", "f8", "f4"])}
+    elif isinstance(base["td"], dict) or (not isinstance(base["td"], str) and base["td"] <= 0):
+        base["td"] = rng.choice([1, 2, 8])
+    w = rng.random()
+    if w < 0.25:
+        base["tm"] = {"a0": rng.choice([0, 1, 2, 0.5, 1.5])}
+    elif w < 0.45:
+        v = rng.choice([0, 1, 2, 0.5, 0.25])
+        base["tm"] = {"np": v, "dt": "i8" if isinstance(v, int) and rng.random() < 0.5 else "f8"}
+    elif tm_val(base["tm"]) < 0:
+        base["tm"] = 0
+    ends = ends_of(rng, src, units)
+    base["et"] = None
+    if ends and rng.random() < 0.85:
+        value = max(ends) + (rng.choice([0, 0.5, 1, 2, 3, 5, 5, 8]) if rng.random() < 0.93 else -0.25)
+        base["et"] = et_in_form(value, rng.choice(ET_FORMS))
+    variants = [base]
+    for _ in range(rng.randint(1, 3)):
+        v = dict(base)
+        for k in rng.sample(["oo", "ns", "pr", "rs", "bi", "ri", "rd", "rs"], rng.randint(1, 3)):
+            v[k] = not v[k]
+        if rng.random() < 0.3:
+            v["pm"] = rng.choice([-1, 0, 2])
+        if rng.random() < 0.15 and len(units) > 1:
+            v["tu"] = rng.choice(units)
+        variants.append(v)
+    for v in variants:
+        v["pc"] = {"norm": rng.random() < 0.6, "bin": rng.random() < 0.4}
+    sched = [[0, "pr"]] + [[rng.randrange(len(variants)), "pc" if rng.random() < 0.25 else "pr"] for _ in range(rng.randint(1, 4))]
+    sched.append(list(rng.choice(sched)))
+    src.update(k="hist", variants=variants, sched=sched)
+    return src
+
+
 def cases(rng, tier):
     n_arr, n_opt, n_obj, n_oopt, n_dec, n_rt = {
         "quick": (260, 12, 70, 8, 300, 100), "thorough": (2600, 36, 700, 16, 4500, 1500)}.get(tier, (3500, 24, 800, 12, 3500, 1500))
+    n_hist = {"quick": 160, "thorough": 1600}.get(tier, 1600)
+    hist_rng = random.Random(rng.getrandbits(64))
+    for i in range(n_hist):
+        yield gen_hist(hist_rng, tier)
     for _ in range(n_arr):
         arr = gen_array(rng, tier)
         arr["k"] = "pr"
@@ -367,15 +499,24 @@ def cases(rng, tier):
 
 
 # --------------------------------------------------------------------------- building inputs / requests
+ARRAY_FORMS = ["plain", "ro", "strided", "fields", "rec", "wide", "aligned"]
+
+
 def build_array(d):
-    dt = [("pitch", "i4")]
+    """the structured note array; `d["form"]`: plain | ro (read-only) | strided (every second row of a larger array) |
+    fields (a multi-field view of an array with more columns) | rec (np.recarray) | wide (i8 / f8 columns) |
+    aligned (C-struct padding)"""
+    form = d.get("form") or "plain"
+    wide = form == "wide"
+    ity, fty = ("i8", "f8") if wide else ("i4", "f4")
+    dt = [("pitch", ity)]
     for u in d["units"]:
-        ty = "i4" if u in INT_UNITS else "f4"
+        ty = ity if u in INT_UNITS else fty
         dt += [("onset_" + u, ty), ("duration_" + u, ty)]
     if d["has_vel"]:
-        dt.append(("velocity", "i4"))
+        dt.append(("velocity", ity))
     if d["has_chan"]:
-        dt.append(("channel", "i4"))
+        dt.append(("channel", ity))
     dt.append(("id", "U8"))
     recs = []
     for i, r in enumerate(d["rows"]):
@@ -388,7 +529,31 @@ def build_array(d):
             rec.append(r["c"])
         rec.append("n%d" % i)
         recs.append(tuple(rec))
-    return np.array(recs, dtype=dt)
+    if form == "aligned":
+        return np.array(recs, dtype=np.dtype(dt, align=True))
+    arr = np.array(recs, dtype=dt)
+    if form == "ro":
+        arr.flags.writeable = False
+    elif form == "strided" and len(arr):
+        big = np.zeros(2 * len(arr) + 1, dtype=dt)
+        big["pitch"] = 60
+        for name, ty in dt[1:-1]:
+            big[name] = 7
+        big[1::2] = arr
+        arr = big[1::2]
+    elif form == "fields" and len(arr):
+        dt2 = []
+        for i, (name, ty) in enumerate(dt):
+            dt2 += [("junk%d" % i, "f8" if i % 2 else "i2"), (name, ty)]
+        big = np.zeros(len(arr), dtype=dt2)
+        for name, ty in dt:
+            big[name] = arr[name]
+        for i in range(len(dt)):
+            big["junk%d" % i] = 3
+        arr = big[[name for name, _ in dt]]
+    elif form == "rec":
+        arr = arr.view(np.recarray)
+    return arr
 
 
 def build_input(d):
@@ -444,9 +609,25 @@ def layout_of(d):
     return None
 
 
+def np_scalar(v, dt):
+    return np.dtype(dt).type(v)
+
+
+def boxed(d, key):
+    """the ndarray a description {key: values, "dt": dtype, "ro": read-only, "nd": 2} stands for"""
+    a = np.array(d[key], dtype=d.get("dt", "f8" if key == "arr" else None))
+    if d.get("nd") == 2:
+        a = a.reshape(1, -1)
+    if d.get("ro"):
+        a.flags.writeable = False
+    return a
+
+
 def td_py(td):
     if isinstance(td, dict):
-        return np.array(td["arr"]) if "arr" in td else np.array(td["a0"])
+        if "np" in td:
+            return np_scalar(td["np"], td.get("dt", "i8"))
+        return boxed(td, "arr") if "arr" in td else boxed(td, "a0")
     return td
 
 
@@ -454,29 +635,78 @@ def td_tok(td):
     if td == "auto":
         return "auto"
     if isinstance(td, dict):
-        return "arr" if "arr" in td else "n " + W.q(td["a0"])
+        return "arr" if "arr" in td else "n " + W.q(td["a0"] if "a0" in td else td["np"])
     return "n " + W.q(td)
 
 
+def tm_val(tm):
+    """the number a `time_margin` argument stands for (python number / numpy scalar / 0-d array)"""
+    if isinstance(tm, dict):
+        return tm["a0"] if "a0" in tm else tm["np"]
+    return tm
+
+
+def tm_py(tm):
+    if isinstance(tm, dict):
+        return boxed(tm, "a0") if "a0" in tm else np_scalar(tm["np"], tm.get("dt", "f8"))
+    return tm
+
+
 def et_py(et):
+    """python number | {"arr": xs, dt, ro, nd} ndarray | {"a0": x, dt, ro} 0-d array | {"np": x, dt} numpy scalar |
+    {"list": xs} | {"tuple": xs}"""
     if isinstance(et, dict):
-        return np.array(et["arr"], dtype=float) if "arr" in et else list(et["list"])
+        if "arr" in et:
+            return boxed(et, "arr")
+        if "a0" in et:
+            return boxed(dict(et, dt=et.get("dt", "f8")), "a0")
+        if "np" in et:
+            return np_scalar(et["np"], et.get("dt", "f8"))
+        if "tuple" in et:
+            return tuple(et["tuple"])
+        return list(et["list"])
     return et
+
+
+def et_shifted(et, by):
+    """the same kind of `end_time` container holding a value `by` larger"""
+    if isinstance(et, dict):
+        q = dict(et)
+        for k in ("arr", "list", "tuple"):
+            if k in q:
+                q[k] = [x + by for x in q[k]]
+        for k in ("a0", "np"):
+            if k in q:
+                q[k] = q[k] + by
+        return q
+    return et + by
+
+
+def et_elems(et):
+    """the elements of an `end_time` sequence; None for a scalar kind"""
+    if isinstance(et, dict):
+        for k in ("arr", "list", "tuple"):
+            if k in et:
+                return list(et[k])
+    return None
 
 
 def et_tok(et):
     if et is None:
         return "-"
-    if isinstance(et, dict):
-        return "a " + W.lst(W.q, et["arr"] if "arr" in et else et["list"])
-    return "s " + W.q(et)
+    xs = et_elems(et)
+    if xs is not None:
+        return "a " + W.lst(W.q, xs)
+    return "s " + W.q(et_scalar(et))
 
 
 def et_scalar(et):
     """the number an `end_time` argument stands for; 'skip' for a sequence that does not have exactly one element"""
-    if isinstance(et, dict):
-        xs = et["arr"] if "arr" in et else et["list"]
+    xs = et_elems(et)
+    if xs is not None:
         return xs[0] if len(xs) == 1 else "skip"
+    if isinstance(et, dict):
+        return et["a0"] if "a0" in et else et["np"]
     return et
 
 
@@ -488,7 +718,7 @@ def _tok(k, v):
     if k == "pm":
         return W.i(v)
     if k == "tm":
-        return W.q(v)
+        return W.q(tm_val(v))
     if k == "et":
         return et_tok(v)
     return W.b(v)
@@ -524,27 +754,128 @@ def pc_effective(o):
     return {k: (PC_DEFAULTS[k] if k in omit else vals[k]) for k in PC_KEYS}
 
 
-def kwargs_of(o):
+ARG_PY = {"td": td_py, "et": et_py, "tm": tm_py}
+
+
+def arg_obj(k, v, pool):
+    """the Python object for keyword `k` with description `v`; with a `pool` (one per session) equal descriptions
+    are ONE object, built once and passed to every call that names it"""
+    f = ARG_PY.get(k)
+    if f is None:
+        return v
+    if pool is None:
+        return f(v)
+    key = k + ":" + json.dumps(v, sort_keys=True)
+    if key not in pool:
+        obj = f(v)
+        pool[key] = (obj, freeze(obj), k, v)
+    return pool[key][0]
+
+
+def kwargs_of(o, pool=None):
     omit = o.get("omit", ())
     kw = {}
     for k in PR_KEYS:
         if k in omit:
             continue
-        v = o[k]
-        kw[PR_KWNAME[k]] = td_py(v) if k == "td" else et_py(v) if k == "et" else v
+        kw[PR_KWNAME[k]] = arg_obj(k, o[k], pool)
     return kw
 
 
-def pc_kwargs_of(o):
+def pc_kwargs_of(o, pool=None):
     vals = pc_values(o)
     omit = o["pc"].get("omit", ())
     kw = {}
     for k in PC_KEYS:
         if k in omit:
             continue
-        v = vals[k]
-        kw[PC_KWNAME[k]] = td_py(v) if k == "td" else et_py(v) if k == "et" else v
+        kw[PC_KWNAME[k]] = arg_obj(k, vals[k], pool)
     return kw
+
+
+def plain_opts(o):
+    """the same option set with `time_div`, `time_margin`, `end_time` given as plain Python numbers
+    (None when that is not possible: a sequence without exactly one element, an array time_div)"""
+    q = dict(o)
+    if isinstance(o["td"], dict):
+        if "arr" in o["td"]:
+            return None
+        q["td"] = o["td"]["a0"] if "a0" in o["td"] else o["td"]["np"]
+    q["tm"] = tm_val(o["tm"])
+    if o["et"] is not None:
+        x = et_scalar(o["et"])
+        if x == "skip":
+            return None
+        q["et"] = x
+    return q
+
+
+# --------------------------------------------------------------------------- arguments are values: frame / aliasing
+def _sparse(x):
+    return hasattr(x, "indptr") and hasattr(x, "indices") and hasattr(x, "data")
+
+
+def arrays_of(x):
+    """every ndarray an argument / result consists of (with the arrays it is a view of)"""
+    out = []
+    if _sparse(x):
+        for a in (x.data, x.indices, x.indptr):
+            out += arrays_of(a)
+    elif isinstance(x, np.ndarray):
+        out.append(x)
+        b = x.base
+        while isinstance(b, np.ndarray):
+            out.append(b)
+            b = b.base
+    elif isinstance(x, (list, tuple)):
+        for y in x:
+            out += arrays_of(y)
+    return out
+
+
+def freeze(x):
+    """a deep, comparable copy of an argument's value (container kind, dtype, shape, every byte incl. the array
+    it is a view of)"""
+    if _sparse(x):
+        return ("sparse", type(x).__name__, tuple(x.shape)) + tuple(freeze(a) for a in (x.data, x.indices, x.indptr))
+    if isinstance(x, np.ndarray):
+        return ("nd", type(x).__name__, str(x.dtype), tuple(x.shape)) + tuple(a.tobytes() for a in arrays_of(x))
+    if isinstance(x, np.generic):
+        return ("np", str(x.dtype), x.tobytes())
+    if isinstance(x, (list, tuple)):
+        return (type(x).__name__,) + tuple(freeze(y) for y in x)
+    return ("py", type(x).__name__, repr(x))
+
+
+def show(x):
+    if isinstance(x, np.ndarray):
+        return "%s(%s, dtype=%s)" % (type(x).__name__, x.tolist(), x.dtype)
+    return repr(x)
+
+
+def aliased(res, args):
+    """does a result share memory with an argument array?"""
+    ins = [a for x in args for a in arrays_of(x)]
+    for r in arrays_of(res if not isinstance(res, tuple) else list(res)):
+        for a in ins:
+            try:
+                if np.may_share_memory(r, a) and np.shares_memory(r, a):
+                    return True
+            except Exception:
+                pass
+    return False
+
+
+def check_frame(pool, where):
+    """oracle failures: an argument object no longer holds the value it was built with"""
+    fails = []
+    for key in sorted(pool):
+        obj, before, k, v = pool[key]
+        if freeze(obj) != before:
+            fails.append("frame: %s changed the caller's %s argument (built from %s, now %s)" % (
+                where, PR_KWNAME.get(k, k), json.dumps(v), show(obj)))
+            pool[key] = (obj, freeze(obj), k, v)   # report each change once
+    return fails
 
 
 def req_array(lay, arr):
@@ -605,7 +936,7 @@ def select_unit(lay, e):
     elif isinstance(td, dict):
         if "arr" in td:
             return "skip"
-        td = int(td["a0"])
+        td = int(td["a0"] if "a0" in td else td["np"])
     else:
         td = int(td)  # truncation toward zero
     return unit, td
@@ -630,8 +961,8 @@ def floats_exact(notes, e, td, t0, et, last):
             return False
         if Fraction(float(td) * float(du)) != td * du:
             return False
-    tm = Fraction(e["tm"])
-    tmf = float(e["tm"])
+    tm = Fraction(tm_val(e["tm"]))
+    tmf = float(tm_val(e["tm"]))
     if Fraction(tmf * td) != tm * td:
         return False
     if et is None:
@@ -655,7 +986,7 @@ def rasterise(notes, e, td, et):
         return ("err", "negative duration")
     first = min(on for (_, on, _, _) in notes)
     t0 = first if e["rs"] else min(Fraction(0), first)
-    tm = Fraction(e["tm"])
+    tm = Fraction(tm_val(e["tm"]))
     margin = int(tm * td)  # toward zero
     pm = e["pm"]
     if pm > -1:
@@ -726,7 +1057,7 @@ def check_roll(lay, arr, e, res, exc):
     if et == "skip":
         # a sequence that does not have exactly one element names no end time (fixes/C13-2: `.item()`)
         if exc is None:
-            fails.append("error: an end_time sequence with %d elements was accepted" % len(e["et"].get("arr", e["et"].get("list"))))
+            fails.append("error: an end_time sequence with %d elements was accepted" % len(et_elems(e["et"])))
         return fails, None
     notes = notes_of(lay, arr, e, unit)
     exp = rasterise(notes, e, td, et)
@@ -830,16 +1161,9 @@ def call(f, *a, **kw):
         return None, e
 
 
-def snapshot(x):
-    return x.tobytes() if isinstance(x, np.ndarray) else None
-
-
-def eval_pr(d):
-    import partitura.utils.music as M
-
-    ev = Eval()
+def resolve_input(ev, M, d, inp):
+    """(layout, rows, neutral) of the note array the `note_info` argument stands for"""
     src = d.get("src", "array")
-    inp = build_input(d)
     lay = layout_of(d)
     neutral = False
     if src == "performedpartlist":
@@ -868,89 +1192,314 @@ def eval_pr(d):
                 arr = None
     else:
         arr = None
-    arr_req = req_array(lay, arr)
-    before = snapshot(inp)
-    nontrivial = False
-    skipped = 0
-    large = 0
-    for o in d["opts"]:
-        e = effective(o)
-        res, exc = call(M.compute_pianoroll, inp, **kwargs_of(o))
-        fails, info = ([], None) if neutral else check_roll(lay, arr, e, res, exc)
-        if info == "inexact":
-            skipped += 1
-            continue
-        ev.oracle += ["%s [%s opts %s]" % (f, src, {k: v for k, v in o.items() if k != "pc"}) for f in fails]
-        if exc is None and not fails:
-            m0 = res[0] if isinstance(res, tuple) else res
-            if getattr(m0, "nnz", 0) > MAX_CELLS or (getattr(m0, "shape", (0, 0))[1] > MAX_COLS and "pc" in o):
-                large += 1  # the model's cell-by-cell answer is quadratic in the number of cells
-                continue
-        ev.requests.append("pr %s %s %s" % (W.s(src), req_args(o), arr_req))
-        if exc is not None:
-            ev.impl.append("err")
-        else:
-            nontrivial = True
-            try:
-                ev.impl.append(fmt_roll(res[0], res[1]) if isinstance(res, tuple) else fmt_roll(res, None))
-            except Exception as x:
-                ev.impl.append("unreadable result %r" % (x,))
-        if "pc" in o:
-            pe = pc_effective(o)
-            r2, e2 = call(M.compute_pitch_class_pianoroll, inp, **pc_kwargs_of(o))
-            ev.requests.append("pc %s %s %s" % (W.s(src), req_pc_args(o), arr_req))
-            # the full roll it must be the fold of (computed by the implementation itself, checked for its own options
-            # by the clauses above whenever such an option set is drawn)
-            ofull = {"tu": pe["tu"], "td": pe["td"], "oo": pe["oo"], "ns": pe["ns"], "pm": -1, "tm": pe["tm"], "ri": True,
-                     "pr": False, "rd": True, "rs": pe["rs"], "et": pe["et"], "bi": False}
-            full, e3 = call(M.compute_pianoroll, inp, **kwargs_of(ofull))
-            if e2 is not None:
-                ev.impl.append("err")
-                if e3 is None:
-                    ev.oracle.append("pc: pitch-class roll rejected (%r) an input whose full roll exists [%s opts %s]" % (e2, src, o))
-            else:
-                nontrivial = True
-                if pe["ri"] and not (isinstance(r2, tuple) and len(r2) == 2):
-                    ev.oracle.append("pc: return_idxs=True did not return (roll, index rows) [%s opts %s]" % (src, o))
-                    ev.impl.append("unreadable")
-                    continue
-                if not pe["ri"] and isinstance(r2, tuple):
-                    ev.oracle.append("pc: index rows returned although return_idxs is False [%s opts %s]" % (src, o))
-                    ev.impl.append("unreadable")
-                    continue
-                pcm, pidx = (r2 if pe["ri"] else (r2, None))
-                vals = [int(pcm.shape[1]), [[float(x) for x in pcm[:, j]] for j in range(pcm.shape[1])],
-                        [[int(x) for x in row] for row in pidx] if pidx is not None else []]
-                ev.impl.append(("@approx", vals, 1e-9))
-                if e3 is not None:
-                    ev.oracle.append("pc: pitch-class roll returned although the full roll is rejected (%r) [%s opts %s]" % (e3, src, o))
-                else:
-                    fa = full[0].toarray()
-                    exp = pc_expected(fa, pe["bin"], pe["norm"])
-                    if pcm.shape != (12, fa.shape[1]):
-                        ev.oracle.append("pc: shape %r for a full roll of %d frames [%s opts %s]" % (pcm.shape, fa.shape[1], src, o))
-                    else:
-                        bad = [(c, j) for j in range(fa.shape[1]) for c in range(12)
-                               if abs(Fraction(float(pcm[c, j])) - exp[j][c]) > Fraction(1, 10**9)]
-                        if bad:
-                            c, j = bad[0]
-                            ev.oracle.append("pc: cell %r is %r, the octave fold%s gives %s [%s opts %s]" % (
-                                (c, j), float(pcm[c, j]), " (normalised)" if pe["norm"] else "", exp[j][c], src, o))
-                        if pe["norm"]:
-                            for j in range(fa.shape[1]):
-                                s = float(pcm[:, j].sum())
-                                if not (abs(s - 1) < 1e-9 or not pcm[:, j].any()):
-                                    ev.oracle.append("pc: normalised frame %d sums to %r [%s opts %s]" % (j, s, src, o))
-                                    break
-                        if pidx is not None:
-                            want = [(int(r[0]) % 12, int(r[1]), int(r[2]), int(r[3])) for r in full[1]]
-                            if [tuple(int(x) for x in r) for r in pidx] != want:
-                                ev.oracle.append("pc: index rows are not the full roll's rows with the pitch taken mod 12 [%s opts %s]" % (src, o))
-    if before is not None and snapshot(inp) != before:
-        ev.oracle.append("frame: compute_pianoroll modified its argument")
-    ev.info = {"skipped_inexact": skipped, "skipped_large": large}
-    ev.key = ("|".join(ev.requests)) if nontrivial else None
+    return lay, arr, neutral
+
+
+class Ctx:
+    """one `note_info` argument and what the calls on it have shown so far"""
+
+    def __init__(self, ev, M, d, inp):
+        self.ev, self.M, self.inp = ev, M, inp
+        self.src = d.get("src", "array")
+        self.lay, self.arr, self.neutral = resolve_input(ev, M, d, inp)
+        self.arr_req = req_array(self.lay, self.arr)
+        self.pool = {}           # the argument objects shared by the calls of this case
+        self.nontrivial = False
+        self.skipped = 0
+        self.large = 0
+
+
+def observe_pr(c, o, tag=""):
+    """one compute_pianoroll call with the case's shared argument objects: oracle by value, correspondence request;
+    returns (result, exception, go_on) - go_on False: no verdict / no request for this option set"""
+    ev = c.ev
+    e = effective(o)
+    kw = kwargs_of(o, c.pool)
+    res, exc = call(c.M.compute_pianoroll, c.inp, **kw)
+    fails, info = ([], None) if c.neutral else check_roll(c.lay, c.arr, e, res, exc)
+    if exc is None and aliased(res, [c.inp] + list(kw.values())):
+        fails.append("alias: the returned roll / index rows share memory with an argument")
+    if info == "inexact":
+        c.skipped += 1
+        return res, exc, False
+    ev.oracle += ["%s%s [%s opts %s]" % (f, tag, c.src, {k: v for k, v in o.items() if k != "pc"}) for f in fails]
+    if exc is None and not fails:
+        m0 = res[0] if isinstance(res, tuple) else res
+        if getattr(m0, "nnz", 0) > MAX_CELLS or (getattr(m0, "shape", (0, 0))[1] > MAX_COLS and "pc" in o):
+            c.large += 1  # the model's cell-by-cell answer is quadratic in the number of cells
+            return res, exc, False
+    ev.requests.append("pr %s %s %s" % (W.s(c.src), req_args(o), c.arr_req))
+    if exc is not None:
+        ev.impl.append("err")
+    else:
+        c.nontrivial = True
+        try:
+            ev.impl.append(fmt_roll(res[0], res[1]) if isinstance(res, tuple) else fmt_roll(res, None))
+        except Exception as x:
+            ev.impl.append("unreadable result %r" % (x,))
+    return res, exc, True
+
+
+def observe_pc(c, o, tag=""):
+    """one compute_pitch_class_pianoroll call (shared argument objects); returns (result, exception)"""
+    ev, M, inp, src = c.ev, c.M, c.inp, c.src
+    pe = pc_effective(o)
+    kw = pc_kwargs_of(o, c.pool)
+    r2, e2 = call(M.compute_pitch_class_pianoroll, inp, **kw)
+    ev.requests.append("pc %s %s %s" % (W.s(src), req_pc_args(o), c.arr_req))
+    if e2 is None and aliased(r2, [inp] + list(kw.values())):
+        ev.oracle.append("alias: the pitch-class roll / index rows share memory with an argument%s [%s opts %s]" % (tag, src, o))
+    # the full roll it must be the fold of (computed by the implementation itself from fresh argument objects, checked
+    # for its own options by the clauses of check_roll whenever such an option set is drawn)
+    ofull = {"tu": pe["tu"], "td": pe["td"], "oo": pe["oo"], "ns": pe["ns"], "pm": -1, "tm": pe["tm"], "ri": True,
+             "pr": False, "rd": True, "rs": pe["rs"], "et": pe["et"], "bi": False}
+    full, e3 = call(M.compute_pianoroll, inp, **kwargs_of(ofull))
+    if e2 is not None:
+        ev.impl.append("err")
+        if e3 is None:
+            ev.oracle.append("pc: pitch-class roll rejected (%r) an input whose full roll exists%s [%s opts %s]" % (e2, tag, src, o))
+        return r2, e2
+    c.nontrivial = True
+    if pe["ri"] and not (isinstance(r2, tuple) and len(r2) == 2):
+        ev.oracle.append("pc: return_idxs=True did not return (roll, index rows)%s [%s opts %s]" % (tag, src, o))
+        ev.impl.append("unreadable")
+        return r2, e2
+    if not pe["ri"] and isinstance(r2, tuple):
+        ev.oracle.append("pc: index rows returned although return_idxs is False%s [%s opts %s]" % (tag, src, o))
+        ev.impl.append("unreadable")
+        return r2, e2
+    pcm, pidx = (r2 if pe["ri"] else (r2, None))
+    vals = [int(pcm.shape[1]), [[float(x) for x in pcm[:, j]] for j in range(pcm.shape[1])],
+            [[int(x) for x in row] for row in pidx] if pidx is not None else []]
+    ev.impl.append(("@approx", vals, 1e-9))
+    if e3 is not None:
+        ev.oracle.append("pc: pitch-class roll returned although the full roll is rejected (%r)%s [%s opts %s]" % (e3, tag, src, o))
+        return r2, e2
+    fa = full[0].toarray()
+    exp = pc_expected(fa, pe["bin"], pe["norm"])
+    if pcm.shape != (12, fa.shape[1]):
+        ev.oracle.append("pc: shape %r for a full roll of %d frames%s [%s opts %s]" % (pcm.shape, fa.shape[1], tag, src, o))
+        return r2, e2
+    bad = [(c_, j) for j in range(fa.shape[1]) for c_ in range(12)
+           if abs(Fraction(float(pcm[c_, j])) - exp[j][c_]) > Fraction(1, 10**9)]
+    if bad:
+        c_, j = bad[0]
+        ev.oracle.append("pc: cell %r is %r, the octave fold%s gives %s%s [%s opts %s]" % (
+            (c_, j), float(pcm[c_, j]), " (normalised)" if pe["norm"] else "", exp[j][c_], tag, src, o))
+    if pe["norm"]:
+        for j in range(fa.shape[1]):
+            sm = float(pcm[:, j].sum())
+            if not (abs(sm - 1) < 1e-9 or not pcm[:, j].any()):
+                ev.oracle.append("pc: normalised frame %d sums to %r%s [%s opts %s]" % (j, sm, tag, src, o))
+                break
+    if pidx is not None:
+        want = [(int(r[0]) % 12, int(r[1]), int(r[2]), int(r[3])) for r in full[1]]
+        if [tuple(int(x) for x in r) for r in pidx] != want:
+            ev.oracle.append("pc: index rows are not the full roll's rows with the pitch taken mod 12%s [%s opts %s]" % (tag, src, o))
+    return r2, e2
+
+
+def finish(c, before, what="compute_pianoroll"):
+    ev = c.ev
+    ev.oracle += check_frame(c.pool, what)
+    if freeze(c.inp) != before:
+        ev.oracle.append("frame: %s modified its note_info argument" % what)
+    ev.info = {"skipped_inexact": c.skipped, "skipped_large": c.large}
+    ev.key = ("|".join(ev.requests)) if c.nontrivial else None
     return ev
+
+
+def eval_pr(d):
+    import partitura.utils.music as M
+
+    ev = Eval()
+    inp = build_input(d)
+    c = Ctx(ev, M, d, inp)
+    before = freeze(inp)
+    for o in d["opts"]:
+        _, _, go_on = observe_pr(c, o)
+        if go_on and "pc" in o:
+            observe_pc(c, o)
+    return finish(c, before)
+
+
+def reborn(make, dead_id, tries=48):
+    """a fresh object that lives where a dead one lived (CPython hands freed blocks out again) - or simply a fresh one"""
+    keep = []
+    for _ in range(tries):
+        x = make()
+        if id(x) == dead_id:
+            return x
+        keep.append(x)
+    return make()
+
+
+def canon_result(res, exc):
+    """a hashable rendering of everything a call returned"""
+    if exc is not None:
+        return "err"
+    if isinstance(res, tuple):
+        return tuple(canon_result(r, None) for r in res)
+    if _sparse(res) or hasattr(res, "toarray"):
+        try:
+            return fmt_roll(res, None)
+        except Exception as x:
+            return "unreadable %r" % (x,)
+    if isinstance(res, np.ndarray):
+        return (str(res.dtype), tuple(res.shape), res.tobytes())
+    return repr(res)
+
+
+def obj_text(x):
+    """an argument object as the model's store prints it"""
+    if isinstance(x, np.ndarray):
+        if x.ndim == 0:
+            return "a0:" + W.f_rat(W.as_fraction(x.item()))
+        return "arr:" + W.f_list(lambda v: W.f_rat(W.as_fraction(v)), x.reshape(-1).tolist())
+    if isinstance(x, (list, tuple)):
+        return "seq:" + W.f_list(lambda v: W.f_rat(W.as_fraction(v)), x)
+    return "num:" + W.f_rat(W.as_fraction(x))
+
+
+def obj_tok(x):
+    if isinstance(x, np.ndarray):
+        if x.ndim == 0:
+            return "a0 " + W.q(W.as_fraction(x.item()))
+        return "arr " + W.lst(lambda v: W.q(W.as_fraction(v)), x.reshape(-1).tolist())
+    if isinstance(x, (list, tuple)):
+        return "seq " + W.lst(lambda v: W.q(W.as_fraction(v)), x)
+    return "num " + W.q(W.as_fraction(x))
+
+
+def sess_request(c, d, outs):
+    """the whole session as ONE request: the store of argument objects (as they were built), the calls naming them by
+    address; the model answers with every call's result and the store after the last call"""
+    addr = {}
+    objs = []
+    for key in c.pool:
+        obj, _, k, v = c.pool[key]
+        if v is None or v == "auto":
+            continue
+        addr[key] = len(objs)
+        objs.append(obj_tok(ARG_PY[k](v)))      # the value it was built with
+
+    def ref(k, v):
+        if v is None:
+            return "-"
+        if v == "auto":
+            return "auto"
+        return "@ %d" % addr[k + ":" + json.dumps(v, sort_keys=True)]
+
+    calls = []
+    for vi, fn in d["sched"]:
+        o = d["variants"][vi]
+        if fn == "pr":
+            omit = o.get("omit", ())
+            toks = ["-" if k in omit else (ref(k, o[k]) if k in ARG_PY else _tok(k, o[k])) for k in PR_KEYS]
+        else:
+            vals = pc_values(o)
+            omit = o["pc"].get("omit", ())
+            toks = ["-" if k in omit else (ref(k, vals[k]) if k in ARG_PY else _tok({"norm": "b", "bin": "b"}.get(k, k), vals[k]))
+                    for k in PC_KEYS]
+        calls.append(fn + " " + " ".join(toks))
+    req = "sess %s %s %d %s %d %s" % (W.s(c.src), c.arr_req, len(objs), " ".join(objs), len(calls), " ".join(calls))
+    store = W.f_list(obj_text, [c.pool[key][0] for key in c.pool if key in addr])
+    return req, ";".join(outs) + "#" + store
+
+
+def eval_hist(d):
+    """a session of calls on shared argument objects: every call is judged by value (check_roll / the octave fold), the
+    arguments must keep their values, a repeated call must repeat its result, and equal-valued fresh objects / plain
+    Python numbers must give the same result"""
+    import partitura.utils.music as M
+
+    ev = Eval()
+    inp = build_input(d)
+    c = Ctx(ev, M, d, inp)
+    before = freeze(inp)
+    first = {}
+    outs = []
+    whole = True
+    for step, (vi, fn) in enumerate(d["sched"]):
+        o = d["variants"][vi]
+        tag = " {call %d of the session: variant %d, %s}" % (step, vi, fn)
+        n_req = len(ev.requests)
+        if fn == "pr":
+            res, exc, _ = observe_pr(c, o, tag)
+        else:
+            res, exc = observe_pc(c, o, tag)
+        if len(ev.requests) == n_req:
+            whole = False
+        elif fn == "pr":
+            outs.append(ev.impl[-1] if isinstance(ev.impl[-1], str) else "?")
+        else:
+            r0 = res[0] if isinstance(res, tuple) else res
+            outs.append("err" if exc is not None else "pc(%d)" % (r0.shape[1] if hasattr(r0, "shape") and len(r0.shape) == 2 else -1))
+        ev.oracle += check_frame(c.pool, "call %d of the session (%s)" % (step, fn))
+        now = freeze(inp)
+        if now != before:
+            ev.oracle.append("frame: call %d of the session (%s) modified its note_info argument" % (step, fn))
+            before = now
+        canon = canon_result(res, exc)
+        if (vi, fn) in first:
+            if first[(vi, fn)][1] != canon:
+                ev.oracle.append("history: call %d repeats call %d (same function, same argument objects) and returns another "
+                                 "result [%s variant %s]" % (step, first[(vi, fn)][0], c.src, {k: v for k, v in o.items() if k != "pc"}))
+        else:
+            first[(vi, fn)] = (step, canon)
+    # the result depends on the VALUES only: fresh equal objects, and plain Python numbers instead of numpy containers
+    for (vi, fn), (step, canon) in first.items():
+        o = d["variants"][vi]
+        dead = None
+        if o["et"] is not None and "et" not in o.get("omit", ()):
+            # a short-lived object of the same kind holding ANOTHER value first (its result is not judged): whatever the
+            # implementation remembers about an object must not outlive it
+            dk = kwargs_of(dict(o, et=et_shifted(o["et"], 1)))
+            dead = id(dk["end_time"])
+            call(M.compute_pianoroll, inp, **dk)
+            del dk
+        for label, q in (("fresh argument objects of the same kind", o), ("plain Python numbers of the same value", plain_opts(o))):
+            if q is None:
+                continue
+            kw = kwargs_of(q) if fn == "pr" else pc_kwargs_of(q)
+            if dead is not None and q is o and "end_time" in kw:
+                del kw["end_time"]
+                kw["end_time"] = reborn(lambda: et_py(o["et"]), dead)
+            r, x = call(M.compute_pianoroll if fn == "pr" else M.compute_pitch_class_pianoroll, inp, **kw)
+            if canon_result(r, x) != canon:
+                ev.oracle.append("history: call %d (%s) returned something else than the same call with %s "
+                                 "[%s variant %s]" % (step, fn, label, c.src, {k: v for k, v in o.items() if k != "pc"}))
+    if c.src == "array" and (0, "pr") in first and len(inp):
+        # the same for the note array: another array of the same layout comes and goes, then an equal-valued fresh one
+        o = d["variants"][0]
+        other = build_input(d)
+        dead = id(other)
+        if other.flags.writeable:
+            other["pitch"] = (other["pitch"] + 5) % 120
+            call(M.compute_pianoroll, other, **kwargs_of(o))
+        del other
+        twin = reborn(lambda: build_input(d), dead, 8)
+        r, x = call(M.compute_pianoroll, twin, **kwargs_of(o))
+        if canon_result(r, x) != first[(0, "pr")][1]:
+            ev.oracle.append("history: an equal-valued fresh note array gives another roll than the session's array "
+                             "[%s variant %s]" % (c.src, {k: v for k, v in o.items() if k != "pc"}))
+    if c.src != "array" and c.arr is not None:
+        arr2, _ = call(M.ensure_notearray, inp)
+        if arr2 is None or arr2.dtype != c.arr.dtype or arr2.tobytes() != c.arr.tobytes():
+            ev.oracle.append("frame: the notes of the %s argument changed during the session" % c.src)
+        if any(p.get("warm") for p in d.get("parts", ())):
+            # the same score built without interleaved read-only views must give the same first roll
+            plain = build_input(dict(d, parts=[{k: v for k, v in p.items() if k != "warm"} for p in d["parts"]]))
+            o = d["variants"][0]
+            r, x = call(M.compute_pianoroll, plain, **kwargs_of(o))
+            if (0, "pr") in first and canon_result(r, x) != first[(0, "pr")][1]:
+                ev.oracle.append("history: the roll of a %s differs from the roll of the same score built without "
+                                 "interleaved read-only views [variant %s]" % (c.src, {k: v for k, v in o.items() if k != "pc"}))
+    if whole and c.lay is not None and c.arr is not None:
+        req, want = sess_request(c, d, outs)
+        ev.requests.append(req)
+        ev.impl.append(want)
+    return finish(c, before, "the session")
 
 
 def dense_of(d):
@@ -986,14 +1535,41 @@ def dec_call(M, inp, td, unit):
 
 def eval_dec(d):
     import partitura.utils.music as M
-    from scipy.sparse import csc_matrix
+    from scipy.sparse import csc_matrix, csr_matrix
 
     ev = Eval()
     a = dense_of(d)
-    inp = csc_matrix(a) if d["sparse"] else a
+    form = d.get("form")
+    if d["sparse"]:
+        inp = csc_matrix(a)
+    elif form == "csr":
+        inp = csr_matrix(a)
+    elif form == "F":
+        inp = np.asfortranarray(a)
+    elif form == "ro":
+        inp = a.copy()
+        inp.flags.writeable = False
+    elif form == "strided":
+        big = np.full((2 * a.shape[0], a.shape[1]), 9, dtype=a.dtype)
+        big[::2] = a
+        inp = big[::2]
+    elif form:
+        inp = a.astype(form)
+    else:
+        inp = a
     before = a.copy()
-    td, unit = d["td"], d.get("unit", "sec")
-    res, exc = dec_call(M, inp, td, unit)
+    tdo, unit = td_py(d["td"]), d.get("unit", "sec")
+    td = tm_val(d["td"])
+    frozen = (freeze(inp), freeze(tdo))
+    res, exc = dec_call(M, inp, tdo, unit)
+    # the same objects once more: same notes, arguments untouched, nothing shared with them
+    res2, exc2 = dec_call(M, inp, tdo, unit)
+    if canon_result(res, exc) != canon_result(res2, exc2):
+        ev.oracle.append("history: decoding the same roll object twice gives two different note arrays")
+    if (freeze(inp), freeze(tdo)) != frozen:
+        ev.oracle.append("frame: pianoroll_to_notearray modified its arguments")
+    if exc is None and aliased(res, [inp, tdo]):
+        ev.oracle.append("alias: the decoded note array shares memory with an argument")
     unit_eff = "sec" if unit is None else unit
     td_eff = 8 if td is None else td
     ev.requests.append("dec %d %d %s %s" % (d["rows"], d["n"], W.opt(W.q, td),
@@ -1088,6 +1664,8 @@ def evaluate(d):
         return eval_pr(d)
     if k == "dec":
         return eval_dec(d)
+    if k == "hist":
+        return eval_hist(d)
     return eval_rt(d)
 
 
@@ -1130,6 +1708,25 @@ def shrink(d):
                           ("et", None), ("bi", False), ("ri", False), ("rd", True)):
                 if o[kk] != v:
                     yield dict(d, opts=[dict(o, **{kk: v})])
+    elif k == "hist":
+        if len(d["sched"]) > 1:
+            for i in range(len(d["sched"])):
+                yield dict(d, sched=d["sched"][:i] + d["sched"][i + 1:])
+        used = sorted({vi for vi, _ in d["sched"]})
+        if len(used) < len(d["variants"]):
+            yield dict(d, variants=[d["variants"][vi] for vi in used], sched=[[used.index(vi), fn] for vi, fn in d["sched"]])
+        if d.get("src", "array") == "array":
+            for i in range(len(d["rows"])):
+                if len(d["rows"]) > 1:
+                    yield dict(d, rows=d["rows"][:i] + d["rows"][i + 1:])
+            if d.get("form", "plain") != "plain":
+                yield dict(d, form="plain")
+        for vi, o in enumerate(d["variants"]):
+            for kk, v in (("oo", False), ("ns", False), ("pm", -1), ("tm", 0), ("pr", False), ("bi", False), ("ri", False), ("rd", True)):
+                if o[kk] != v:
+                    yield dict(d, variants=d["variants"][:vi] + [dict(o, **{kk: v})] + d["variants"][vi + 1:])
+            if o.get("omit"):
+                yield dict(d, variants=d["variants"][:vi] + [{kk: v for kk, v in o.items() if kk != "omit"}] + d["variants"][vi + 1:])
     elif k == "dec":
         for i in range(len(d["cells"])):
             yield dict(d, cells=d["cells"][:i] + d["cells"][i + 1:])
@@ -1150,8 +1747,22 @@ def distribution(descs, results):
     n_opts = 0
     for d in descs:
         if d.get("k", "pr") != "pr":
+            if d.get("k") == "hist":
+                o = d["variants"][0]
+                opt["hist:input=%s" % (d.get("form", "plain") if d.get("src", "array") == "array" else d["src"])] += 1
+                for kk in ("et", "td", "tm"):
+                    v = o[kk]
+                    kind = "none" if v is None else "python" if not isinstance(v, dict) else \
+                        "+".join(str(v[x]) if x in ("dt", "nd") else x for x in sorted(v) if x in ("arr", "a0", "np", "list", "tuple", "dt", "ro", "nd"))
+                    opt["hist:%s=%s" % (kk, kind)] += 1
+                opt["hist:calls=%d" % len(d["sched"])] += 1
+                if any(fn == "pc" for _, fn in d["sched"]):
+                    opt["hist:with pc"] += 1
             if d.get("k") == "dec":
-                opt["dec:td=%s" % ("omitted" if d["td"] is None else "0" if d["td"] == 0 else "int" if isinstance(d["td"], int) else "float")] += 1
+                tdv = tm_val(d["td"])
+                opt["dec:td=%s" % ("omitted" if tdv is None else "0" if tdv == 0 else "int" if isinstance(tdv, int) else "float")] += 1
+                if d.get("form") or isinstance(d["td"], dict):
+                    opt["dec:container=%s/%s" % (d.get("form") or "dense", "numpy" if isinstance(d["td"], dict) else "python")] += 1
                 if any(c_[2] < 0 for c_ in d["cells"]):
                     opt["dec:negative"] += 1
                 if d["n"] <= 1:
@@ -1167,7 +1778,7 @@ def distribution(descs, results):
                     opt[kk] += 1
             opt["pm=%d" % o["pm"]] += 1
             opt["td=%s" % (o["td"] if not isinstance(o["td"], dict) else "array")] += 1
-            opt["tm=%s" % o["tm"]] += 1
+            opt["tm=%s" % (tm_val(o["tm"]),)] += 1
             opt["tu=%s" % o["tu"]] += 1
             if o["et"] is not None:
                 opt["end_time" + (":seq" if isinstance(o["et"], dict) else "")] += 1
